@@ -259,6 +259,8 @@ def gen_case(r, idx, profile):
     def sleep_cycle():
         d = r.choice([1, 2, 3])
         g.api("sleep", d)
+        if r.random() < 0.2:
+            g.sn(pingresp())          # a PINGRESP nobody asked for, while the DISCONNECT is unanswered
         v = r.random()
         if v < ackp:
             g.sn(disconnect(0))
@@ -270,6 +272,8 @@ def gen_case(r, idx, profile):
             return
         if r.random() < 0.3:
             gw_publish()
+        if r.random() < 0.2:
+            g.sn(pingresp())          # ... or while the client sleeps
         g.q += d * 10
         if r.random() < 0.85:
             if r.random() < 0.4:
